@@ -10,6 +10,7 @@
 
 string oid = "?";
 int in_force = 0;   // > 0 while a command() call of this object is running
+int relaying = 0;   // > 0 while this body executes an op on behalf of a stale body of the same user (see do_op)
 
 void create () { seteuid (getuid ()); }
 void set_oid (string s) { oid = s; "/c12/reg"->reg (s, this_object ()); }
@@ -59,6 +60,7 @@ int do_cmd (string arg) {
   string v = query_verb ();
   string text;
   if (!stringp (v)) v = "";
+  if (relaying > 0 && v == "zzop") { do_op (arg); return 1; }   // not a command of the case: no log line, no script
   text = v + (stringp (arg) && arg != "" ? " " + arg : "");
   if (in_force > 0) VL ("ecmd " + oid + " " + enc (text));
   run (enc (text));
@@ -78,6 +80,8 @@ void got_line (string s) {
 }
 
 void force (string text) { in_force++; command (text); in_force--; }
+// input_to()/get_char() act on command_giver; command() makes this body the command giver
+void relay (string op) { relaying++; command ("zzop " + op); relaying--; }
 
 void net_dead () { }
 
@@ -85,6 +89,10 @@ void do_op (string s) {
   string *w = explode (s, ",");
   object o;
   int r;
+  // a script may go on running in a body the connection has left (exec in a nested command() call): the driver's
+  // command_giver is then that stale body; let the body that holds the connection now execute input_to / get_char
+  o = "/c12/reg"->get (oid);
+  if (o && o != this_object () && (w[0] == "gc" || w[0] == "it" || w[0] == "itn")) { o->relay (s); return; }
   switch (w[0]) {
   case "kick":
     o = "/c12/reg"->get (w[1]);
